@@ -725,6 +725,11 @@ func propC07(w *World, r *Report) {
 		r.Unknown("K5", "MotionProcessor.Reset", "-", err.Error())
 	}
 	checkRingMove(w, r, "K5")
+	// the slot the detector fills and the slot it is handed back by Move are the ring's slots at its position (a cached
+	// pointer that a reset does not refresh leaves the first frames after the reset compared with a pre-reset frame)
+	linkObligations(w, r, propC19, "C19", func(o *Obligation) bool {
+		return o.Rule == "C19.Q6" && (strings.HasPrefix(o.Construct, "Current returns") || strings.HasPrefix(o.Construct, "Move ["))
+	}, "K5")
 	checkSettingsImmutable(w, r, "K2", "ThermalMotion:TempThresh|DeltaThresh|CountThresh|FrameCompareGap|UseOneDiffOnly|WarmerOnly|DynamicThreshold", "Config:Motion") // the thresholds, gap and flags as configured
 	checkRingCapacityExact(w, r, "K5")
 }
